@@ -36,9 +36,10 @@
    and the nested depth come from Generated.v (translated from the source on every run).
    Abstracted: a recorded code position is the ordinal (nloc) of the jump that records it;
    "patching" a location records which construct (pre-order ordinal of loops and switches)
-   patched it, and how often.  The counting pass and the emitting pass run the same
-   ScriptEmitter code on the same tree, so one run of the model stands for both.  The
-   uint16_t counters never exceed the limits (100), so no wrap-around is modelled. *)
+   patched it, and how often.  A compilation is the counting pass (Preallocate, manager
+   IsCounting() = true) followed by the emitting pass (EmitProgram, IsCounting() = false) of the
+   same ScriptEmitter code; the nested emitters always count.  The uint16_t counters never exceed
+   the limits (100), so no wrap-around is modelled. *)
 From Coq Require Import NArith List Bool.
 From Morfuse Require Import Base.Arr C01.Generated.
 Import ListNotations.
@@ -55,10 +56,11 @@ Inductive op :=
 | OCompile (name : N) (recompile : bool) (s : src)   (* stream variant *)
 | ORequest (name : N) (recompile : bool)        (* file variant *)
 | ORun (name : N)                               (* FindScript; IsCompileSuccess; ExecuteThread(scr) *)
-| OExec (name : N).                             (* ExecuteThread(name) *)
+| OExec (name : N)                              (* ExecuteThread(name) *)
+| OReset.                                       (* ScriptMaster::Reset(): every script is destroyed; the host's files stay *)
 
 Inductive obs :=
-| BDone                (* OSetFile *)
+| BDone                (* OSetFile, OReset *)
 | BOk (tag : N)        (* a successfully compiled script was returned: the one printing tag *)
 | BRejected (kind : N) (* the compile error was thrown to the caller *)
 | BNotLoaded           (* ScriptException "was not properly loaded" *)
@@ -142,6 +144,7 @@ Definition step (m : mst) (o : op) : mst * obs :=
       | BOk tag => (m1, BRan tag)
       | other => (m1, other)
       end
+  | OReset => (mkM [] (files m), BDone)
   end.
 
 Fixpoint run_from (m : mst) (ops : list op) : list obs :=
@@ -181,6 +184,7 @@ Inductive ev :=
 | EvPatch (w : which) (idx : N) (loc : option N) (owner : N). (* SetValueAtCodePosition(TAB[idx], ..) *)
 
 Record est := mkE {
+  counting : bool;                         (* manager.IsCounting(): a ScriptCountManager (true) or the ScriptProgramManager (false) *)
   bcnt : N; ccnt : N;                      (* iBreakJumpLocCount, iContinueJumpLocCount *)
   btab : arr (option N); ctab : arr (option N);   (* apucBreakJumpLocations, apucContinueJumpLocations *)
   canB : bool; canC : bool;                (* canBreak, canContinue *)
@@ -191,8 +195,8 @@ Record est := mkE {
   npatch : arr N;                          (* location -> number of patches *)
   log : list ev }.
 
-Definition fresh (cb cc : bool) (d : N) : est :=
-  mkE 0 0 (aempty None) (aempty None) cb cc d 0 0 (aempty None) (aempty 0) [].
+Definition fresh (k cb cc : bool) (d : N) : est :=
+  mkE k 0 0 (aempty None) (aempty None) cb cc d 0 0 (aempty None) (aempty 0) [].
 
 Definition flag_of (f : flagsrc) (cur : bool) : bool :=
   match f with FTrue => true | FFalse => false | FInherit => cur end.
@@ -203,26 +207,26 @@ Definition lim (w : which) : N := match w with WB => break_limit | WC => continu
 
 Definition set_cnt (w : which) (v : N) (s : est) : est :=
   match w with
-  | WB => mkE v (ccnt s) (btab s) (ctab s) (canB s) (canC s) (depth s) (nloc s) (ncons s) (mown s) (npatch s) (log s)
-  | WC => mkE (bcnt s) v (btab s) (ctab s) (canB s) (canC s) (depth s) (nloc s) (ncons s) (mown s) (npatch s) (log s)
+  | WB => mkE (counting s) v (ccnt s) (btab s) (ctab s) (canB s) (canC s) (depth s) (nloc s) (ncons s) (mown s) (npatch s) (log s)
+  | WC => mkE (counting s) (bcnt s) v (btab s) (ctab s) (canB s) (canC s) (depth s) (nloc s) (ncons s) (mown s) (npatch s) (log s)
   end.
 Definition set_tab (w : which) (t : arr (option N)) (s : est) : est :=
   match w with
-  | WB => mkE (bcnt s) (ccnt s) t (ctab s) (canB s) (canC s) (depth s) (nloc s) (ncons s) (mown s) (npatch s) (log s)
-  | WC => mkE (bcnt s) (ccnt s) (btab s) t (canB s) (canC s) (depth s) (nloc s) (ncons s) (mown s) (npatch s) (log s)
+  | WB => mkE (counting s) (bcnt s) (ccnt s) t (ctab s) (canB s) (canC s) (depth s) (nloc s) (ncons s) (mown s) (npatch s) (log s)
+  | WC => mkE (counting s) (bcnt s) (ccnt s) (btab s) t (canB s) (canC s) (depth s) (nloc s) (ncons s) (mown s) (npatch s) (log s)
   end.
 Definition set_flags (cb cc : bool) (s : est) : est :=
-  mkE (bcnt s) (ccnt s) (btab s) (ctab s) cb cc (depth s) (nloc s) (ncons s) (mown s) (npatch s) (log s).
+  mkE (counting s) (bcnt s) (ccnt s) (btab s) (ctab s) cb cc (depth s) (nloc s) (ncons s) (mown s) (npatch s) (log s).
 Definition set_depth (d : N) (s : est) : est :=
-  mkE (bcnt s) (ccnt s) (btab s) (ctab s) (canB s) (canC s) d (nloc s) (ncons s) (mown s) (npatch s) (log s).
+  mkE (counting s) (bcnt s) (ccnt s) (btab s) (ctab s) (canB s) (canC s) d (nloc s) (ncons s) (mown s) (npatch s) (log s).
 Definition set_nloc (v : N) (s : est) : est :=
-  mkE (bcnt s) (ccnt s) (btab s) (ctab s) (canB s) (canC s) (depth s) v (ncons s) (mown s) (npatch s) (log s).
+  mkE (counting s) (bcnt s) (ccnt s) (btab s) (ctab s) (canB s) (canC s) (depth s) v (ncons s) (mown s) (npatch s) (log s).
 Definition set_ncons (v : N) (s : est) : est :=
-  mkE (bcnt s) (ccnt s) (btab s) (ctab s) (canB s) (canC s) (depth s) (nloc s) v (mown s) (npatch s) (log s).
+  mkE (counting s) (bcnt s) (ccnt s) (btab s) (ctab s) (canB s) (canC s) (depth s) (nloc s) v (mown s) (npatch s) (log s).
 Definition add_log (e : ev) (s : est) : est :=
-  mkE (bcnt s) (ccnt s) (btab s) (ctab s) (canB s) (canC s) (depth s) (nloc s) (ncons s) (mown s) (npatch s) (e :: log s).
+  mkE (counting s) (bcnt s) (ccnt s) (btab s) (ctab s) (canB s) (canC s) (depth s) (nloc s) (ncons s) (mown s) (npatch s) (e :: log s).
 Definition set_own (o : arr (option N)) (p : arr N) (s : est) : est :=
-  mkE (bcnt s) (ccnt s) (btab s) (ctab s) (canB s) (canC s) (depth s) (nloc s) (ncons s) o p (log s).
+  mkE (counting s) (bcnt s) (ccnt s) (btab s) (ctab s) (canB s) (canC s) (depth s) (nloc s) (ncons s) o p (log s).
 
 (* Add*JumpLocation(pos) with the wiring (counter, limit, table, exception) of Generated.v:
    if (CNT < LIM) TAB[CNT++] = pos; else { CNT = 0; throw EXC }   (the state of a throw is dropped) *)
@@ -307,9 +311,11 @@ Fixpoint emit_stmt (x : stmt) (s : est) {struct x} : res est :=
     | SSwitch b =>
         let id := ncons s1 in
         bind (leaf (set_ncons (id + 1) s1)) (fun s2 =>         (* EmitValue(switch expr) *)
-        (* nested counting emitter: fresh tables, flags/depth of Generated.v; EmitRoot(body) *)
-        bind (emit_cases b (fresh (flag_of switch_sub_canbreak (canB s2)) (flag_of switch_sub_cancontinue (canC s2))
-                                  switch_sub_depth)) (fun _ =>
+        (* nested counting emitter (skipped when this manager only counts, unless Generated.v says otherwise):
+           fresh tables, flags/depth of Generated.v; EmitRoot(body) *)
+        bind (if counting s2 && negb switch_sub_in_counting_pass then Ok s2
+              else emit_cases b (fresh true (flag_of switch_sub_canbreak (canB s2)) (flag_of switch_sub_cancontinue (canC s2))
+                                       switch_sub_depth)) (fun _ =>
         let ob := canB s2 in let bc := bcnt s2 in
         bind (emit_break (set_flags true (canC s2) s2)) (fun s3 =>   (* the switch's own exit jump *)
         bind (emit_cases b s3) (fun s4 =>
@@ -317,9 +323,10 @@ Fixpoint emit_stmt (x : stmt) (s : est) {struct x} : res est :=
         Ok (set_flags ob (canC s5) s5)))))
     | STry t c =>
         bind (emit_block t s1) (fun s2 =>
-        (* EmitCatch: nested counting emitter, fresh tables, flags of Generated.v; EmitRoot(catch body) *)
-        bind (emit_block c (fresh (flag_of catch_sub_canbreak (canB s2)) (flag_of catch_sub_cancontinue (canC s2))
-                                  max_depth)) (fun _ =>
+        (* EmitCatch: nested counting emitter (same guard), fresh tables, flags of Generated.v; EmitRoot(catch body) *)
+        bind (if counting s2 && negb catch_sub_in_counting_pass then Ok s2
+              else emit_block c (fresh true (flag_of catch_sub_canbreak (canB s2)) (flag_of catch_sub_cancontinue (canC s2))
+                                       max_depth)) (fun _ =>
         emit_block c s2))
     | SIf b =>
         bind (leaf s1) (fun s2 => emit_block b s2)             (* EmitValue(cond); EmitIfJump -> EmitValue(body) *)
@@ -345,8 +352,8 @@ with emit_list (b : stmts) (s : est) {struct b} : res est :=
   end.
 
 (* the whole program: label main, the statements, end  (a StatementList node at the root) *)
-Definition emit_root (p : stmts) : res est :=
-  let s0 := fresh false false max_depth in
+Definition emit_root (k : bool) (p : stmts) : res est :=
+  let s0 := fresh k false false max_depth in
   with_depth s0 (fun s1 =>
     bind (leaf s1) (fun s2 =>                 (* main: *)
     bind (emit_list p s2) (fun s3 => leaf s3)))   (* end *)
@@ -362,8 +369,14 @@ Fixpoint owners (k : nat) (i : N) (s : est) : list (option N * N) :=
 
 Inductive kout := KErr (e : err) | KOk (l : list (option N * N)).
 
+(* ScriptCompiler::Compile: Preallocate runs the emitter on a ScriptCountManager, then EmitProgram
+   runs it on the ScriptProgramManager; the first exception ends the compilation *)
 Definition kcompile (p : stmts) : kout :=
-  match emit_root p with
+  match emit_root true p with
   | Err e => KErr e
-  | Ok s => KOk (owners (N.to_nat (nloc s)) 0 s)
+  | Ok _ =>
+      match emit_root false p with
+      | Err e => KErr e
+      | Ok s => KOk (owners (N.to_nat (nloc s)) 0 s)
+      end
   end.
